@@ -10,7 +10,7 @@ CONSTANTS
   FileLayer = FALSE
   SilentRelease = FALSE
   ForgetsHandle = FALSE
-  MaxMigrate = 2
+  MaxMigrate = 1
   RegisterOnce = FALSE
 SPECIFICATION FairSpec
 INVARIANTS Safe
